@@ -150,22 +150,23 @@ example : hostMatch wDotSecret wWildSecret = false ∧ matchWildcard wDotSecret 
 example : hostMatch (120 :: wDotSecret) wWildSecret = true ∧ matchWildcard (120 :: wDotSecret) wWildSecret = true := by decide
 example : serve (effectiveStrict none wWildPolicies) [wWildSecret] (some wDotSecret) wDotSecret = .handler none := by decide
 
-/-! ### an IDN site written in Unicode form: the sni matcher keeps the U-label, the host matcher converts -/
+/-! ### regression: an IDN site written in Unicode form — the sni matcher used to keep the U-label, the host matcher converts -/
 
 def wEacuteTest : Bytes := [symEacute, 46, 116, 101, 115, 116]                       -- "é.test"
 def wIdnATest : Bytes := [120, 110, 45, 45, 57, 99, 97, 46, 116, 101, 115, 116]      -- "xn--9ca.test" = idna.ToASCII("é.test")
 
-/-- the config says `é.test` twice: connection policy `sni é.test` with client auth (kept as
-    written by MatchServerName), route `host é.test` (converted to `xn--9ca.test` by
-    MatchHost.Provision); then a catch-all policy -/
+/-- the config says `é.test` twice: connection policy `sni é.test` with client auth, route
+    `host é.test` (converted to `xn--9ca.test` by MatchHost.Provision); then a catch-all policy.
+    BEFORE the sni-matcher fix the provisioned policy kept the name as written — this list; now
+    MatchServerName.Provision converts it too (Driver.provisionedSniName) -/
 def wIdnPolicies : List Policy := [⟨[.sni [wEacuteTest]], false, true⟩, ⟨[], false, false⟩]
 
 /-- an ordinary client sends the A-label as SNI and Host: strict SNI-Host is on and passes, the
     request is routed to the site, yet NO client-auth policy accepts the connection — it gets the
-    catch-all policy 1.  Reproduced with a real handshake (e2e server 4) and, through the
-    Caddyfile adapter, over TCP.  `strict_binds_site_policy` does not apply: the configured site
-    name is not ASCII. -/
-theorem idn_site_policy_never_matches_full_fails :
+    catch-all policy 1.  Reproduced then with a real handshake (e2e server 4) and, through the
+    Caddyfile adapter, over TCP; regression lines in corpus/C19.  With the converted name
+    `strict_binds_site_policy` applies (the provisioned site name is ASCII). -/
+theorem idn_site_policy_never_matches_old_code_fails :
     ∃ (ps : List Policy) (sites : List Bytes) (sni host : Bytes) (v : Nat → Bool) (k : Nat),
       (∃ p ∈ ps, p.clientAuth = true) ∧ noBrackets sni = true ∧ isAscii sni = true ∧
       serve (effectiveStrict none ps) sites (some sni) host = .handler (some k) ∧
@@ -204,9 +205,6 @@ theorem swallowed_ca_load_error :
 def witnessLines : List String := [
   "C19 pol 0 -/~/~;-/612e74657374/~;-/7a7a2e74657374/~;-/7a7a2e74657374/~;-/7a7a2e74657374/~;-/7a7a2e74657374/~;-/7a7a2e74657374/~;-/7a7a2e74657374/~;-/7a7a2e74657374/~;-/7a7a2e74657374/~;-/7a7a2e74657374/~;-/7a7a2e74657374/~;-/7a7a2e74657374/~;-/7a7a2e74657374/~;-/7a7a2e74657374/~;-/7a7a2e74657374/~;-/7a7a2e74657374/~;-/7a7a2e74657374/~;-/7a7a2e74657374/~;-/7a7a2e74657374/~;-/7a7a2e74657374/~;-/7a7a2e74657374/~;-/7a7a2e74657374/~;-/7a7a2e74657374/~;-/7a7a2e74657374/~;-/7a7a2e74657374/~;-/7a7a2e74657374/~;-/7a7a2e74657374/~;-/7a7a2e74657374/~;-/7a7a2e74657374/~;-/7a7a2e74657374/~ 612e74657374/0/6/1000011010111110",
   "C19 enf t . 7365637265742e74657374 1/5b7365637265742e746573745d/5b7365637265742e746573745d",
-  -- IDN site written "é.test": sni matcher asked with the A-label; then a real handshake against e2e server 4 (known finding)
-  "C19 pol 0 C/c3a92e74657374=786e2d2d3963612e74657374/~;-/~/~ 786e2d2d3963612e74657374/0/6/1000011010010010",
-  "C19 e2e 4 p1 786e2d2d3963612e74657374 786e2d2d3963612e74657374",
   -- verifier-only block (Active() flips with provisioning) and a CA file that does not load
   "C19 ca 1000010",
   "C19 ca 1002000"
